@@ -76,6 +76,10 @@ Inductive kmatch :=
 Record key_cfg := {
   ids_test : ktest;                 (* FEMAttribute.from_dict: first branch *)
   data_test : ktest;                (* FEMAttribute.from_dict: second branch *)
+  ts_test : option ktest;           (* ... optional third branch: the stored time_series flag
+                                       (then 3 entries are accepted as well as 2) *)
+  writes_ts : bool;                 (* FEMAttribute.to_dict stores "<prefix>time_series" for
+                                       time-series attributes *)
   elem_group : kmatch;              (* FEMElementalAttribute._split_dict_data *)
   attrs_group : kmatch;             (* FEMAttributes._split_dict_data *)
   element_types : list string       (* FEMElementalAttribute.ELEMENT_TYPES *)
@@ -119,37 +123,50 @@ Fixpoint mapM {A B} (f : A -> res B) (l : list A) : res (list B) :=
 
 Section Keys.
 Variable V : Type.                      (* arrays: opaque *)
+Variable vtrue : V.                     (* np.array(True) *)
+Variable truthy : V -> bool.            (* bool(v) *)
 
 Definition dict := list (string * V).   (* an ordered Python dict / npz file *)
-Definition attr := (V * V)%type.        (* ids, data *)
+Definition attr := (V * V * bool)%type. (* ids, data, time_series *)
+Definition a_ids (a : attr) : V := fst (fst a).
+Definition a_data (a : attr) : V := snd (fst a).
+Definition a_ts (a : attr) : bool := snd a.
 Definition eattr := list (string * attr).          (* element type -> attribute *)
 
 Definition pfx (prefix : option string) : string :=
   match prefix with None => EmptyString | Some p => p ++ "/" end.
 
 (* FEMAttribute.to_dict(prefix) *)
-Definition attr_to_dict (prefix : option string) (a : attr) : dict :=
-  [(pfx prefix ++ "ids", fst a); (pfx prefix ++ "data", snd a)].
+Definition attr_to_dict (kc : key_cfg) (prefix : option string) (a : attr) : dict :=
+  List.app [(pfx prefix ++ "ids", a_ids a); (pfx prefix ++ "data", a_data a)]
+           (if writes_ts kc && a_ts a then [(pfx prefix ++ "time_series", vtrue)] else []).
 
 (* FEMAttribute.from_dict *)
-Fixpoint attr_scan (kc : key_cfg) (d : dict) (ids data : option V) : res attr :=
+Definition ts_key (kc : key_cfg) (k : string) : bool :=
+  match ts_test kc with Some t => ktest_eval t k | None => false end.
+
+Fixpoint attr_scan (kc : key_cfg) (d : dict) (ids data : option V) (ts : bool) : res attr :=
   match d with
   | [] => match ids, data with
-          | Some i, Some x => Ok (i, x)
+          | Some i, Some x => Ok (i, x, ts)
           | _, _ => Err ErrUnbound            (* UnboundLocalError *)
           end
   | (k, v) :: r =>
-      if ktest_eval (ids_test kc) k then attr_scan kc r (Some v) data
-      else if ktest_eval (data_test kc) k then attr_scan kc r ids (Some v)
+      if ktest_eval (ids_test kc) k then attr_scan kc r (Some v) data ts
+      else if ktest_eval (data_test kc) k then attr_scan kc r ids (Some v) ts
+      else if ts_key kc k then attr_scan kc r ids data (truthy v)
       else Err ErrKey
   end.
 
+Definition len_ok (kc : key_cfg) (n : nat) : bool :=
+  Nat.eqb n 2 || (match ts_test kc with Some _ => Nat.eqb n 3 | None => false end).
+
 Definition attr_from_dict (kc : key_cfg) (d : dict) : res attr :=
-  if Nat.eqb (length d) 2 then attr_scan kc d None None else Err ErrLen.
+  if len_ok kc (length d) then attr_scan kc d None None false else Err ErrLen.
 
 (* FEMElementalAttribute.to_dict(prefix) *)
-Definition elem_to_dict (prefix : option string) (e : eattr) : dict :=
-  flat_map (fun ta => attr_to_dict (Some (pfx prefix ++ fst ta)) (snd ta)) e.
+Definition elem_to_dict (kc : key_cfg) (prefix : option string) (e : eattr) : dict :=
+  flat_map (fun ta => attr_to_dict kc (Some (pfx prefix ++ fst ta)) (snd ta)) e.
 
 Fixpoint mapO {A B} (f : A -> option B) (l : list A) : option (list B) :=
   match l with
@@ -184,11 +201,11 @@ Definition elem_from_dict (kc : key_cfg) (d : dict) : res eattr :=
 
 (* FEMAttributes.to_dict for a collection of plain attributes (nodal data,
    constraints) and of elemental attributes (elemental data) *)
-Definition attrs_to_dict (c : list (string * attr)) : dict :=
-  flat_map (fun na => attr_to_dict (Some (fst na)) (snd na)) c.
+Definition attrs_to_dict (kc : key_cfg) (c : list (string * attr)) : dict :=
+  flat_map (fun na => attr_to_dict kc (Some (fst na)) (snd na)) c.
 
-Definition eattrs_to_dict (c : list (string * eattr)) : dict :=
-  flat_map (fun ne => elem_to_dict (Some (fst ne)) (snd ne)) c.
+Definition eattrs_to_dict (kc : key_cfg) (c : list (string * eattr)) : dict :=
+  flat_map (fun ne => elem_to_dict kc (Some (fst ne)) (snd ne)) c.
 
 Definition group_names (d : dict) : list string :=
   uniq_sorted (map (fun kv => first_seg (fst kv)) d).
@@ -215,6 +232,9 @@ End Keys.
 
 Arguments attr_to_dict {V}.
 Arguments attr_from_dict {V}.
+Arguments a_ids {V}.
+Arguments a_data {V}.
+Arguments a_ts {V}.
 Arguments elem_to_dict {V}.
 Arguments elem_from_dict {V}.
 Arguments attrs_to_dict {V}.
@@ -232,6 +252,8 @@ Definition ktest_good (t : ktest) (c : string) : bool :=
 
 Definition key_cfg_ok (kc : key_cfg) : bool :=
   ktest_good (ids_test kc) "ids" && ktest_good (data_test kc) "data"
+  && match ts_test kc with Some t => ktest_good t "time_series" | None => false end
+  && writes_ts kc
   && match elem_group kc with MEqType => true | _ => false end
   && match attrs_group kc with MEqFirst => true | _ => false end.
 
@@ -249,14 +271,20 @@ Definition wf_eattr (kc : key_cfg) {V} (e : eattr V) : bool :=
   && negb (Nat.eqb (length e) 0).
 
 (* ---------- executable witness search (when key_cfg_ok is false) ---------- *)
+(* executable instance: arrays are numbers, np.array(True) is 1 *)
+Definition ntruthy (n : nat) : bool := negb (Nat.eqb n 0).
+
+Definition attr_eqb (a b : attr nat) : bool :=
+  Nat.eqb (a_ids a) (a_ids b) && Nat.eqb (a_data a) (a_data b) && Bool.eqb (a_ts a) (a_ts b).
+
 Definition tagged_eattr (types : list string) : eattr nat :=
-  map (fun it => (snd it, (2 * fst it, 2 * fst it + 1)))
+  map (fun it => (snd it, (2 * fst it, 2 * fst it + 1, false)))
       (combine (seq 0 (length types)) types).
 
 Definition eattr_roundtrip_ok (kc : key_cfg) (prefix : option string) (e : eattr nat) : bool :=
-  match elem_from_dict kc (elem_to_dict prefix e) with
+  match elem_from_dict ntruthy kc (elem_to_dict 1 kc prefix e) with
   | Ok e' => forallb (fun ta => match lookup (fst ta) e' with
-                                | Some (i, x) => Nat.eqb i (fst (snd ta)) && Nat.eqb x (snd (snd ta))
+                                | Some a => attr_eqb a (snd ta)
                                 | None => false
                                 end) e
              && Nat.eqb (length e') (length e)
@@ -264,9 +292,9 @@ Definition eattr_roundtrip_ok (kc : key_cfg) (prefix : option string) (e : eattr
   end.
 
 Definition attrs_roundtrip_ok (kc : key_cfg) (c : list (string * attr nat)) : bool :=
-  match attrs_from_dict kc (attrs_to_dict c) with
+  match attrs_from_dict ntruthy kc (attrs_to_dict 1 kc c) with
   | Ok c' => forallb (fun na => match lookup (fst na) c' with
-                                | Some (i, x) => Nat.eqb i (fst (snd na)) && Nat.eqb x (snd (snd na))
+                                | Some a => attr_eqb a (snd na)
                                 | None => false
                                 end) c
              && Nat.eqb (length c') (length c)
@@ -282,11 +310,13 @@ Definition colliding_pairs (kc : key_cfg) : list (string * string) :=
 Definition name_witnesses : list string := ["T"; "fluids"; "ids"; "data"; "metadata"; "x_ids"].
 
 Definition failing_names (kc : key_cfg) : list string :=
-  filter (fun n => negb (attrs_roundtrip_ok kc [(n, (0, 1))])) name_witnesses.
+  filter (fun n => negb (attrs_roundtrip_ok kc [(n, (0, 1, false))])) name_witnesses.
+
+(* does a time-series attribute survive? *)
+Definition ts_roundtrip_ok (kc : key_cfg) : bool :=
+  attrs_roundtrip_ok kc [("T", (0, 1, true))].
 
 (* ---------- comparison with observations of the implementation ---------- *)
-Definition attr_eqb (a b : attr nat) : bool :=
-  Nat.eqb (fst a) (fst b) && Nat.eqb (snd a) (snd b).
 
 (* as finite maps: the loaded object is a dict (FEMElementalAttribute iterates
    in ELEMENT_TYPES order whatever the insertion order was) *)
@@ -319,19 +349,19 @@ Definition keys_of {V} (d : dict V) : list string := map fst d.
 (* one observed case: the keys to_dict produced and what from_dict returned *)
 Definition attr_case (kc : key_cfg) (prefix : option string) (a : attr nat)
            (keys : list string) (o : res (attr nat)) : bool :=
-  strs_eqb (keys_of (attr_to_dict prefix a)) keys
-  && res_agree attr_eqb (attr_from_dict kc (attr_to_dict prefix a)) o.
+  strs_eqb (keys_of (attr_to_dict 1 kc prefix a)) keys
+  && res_agree attr_eqb (attr_from_dict ntruthy kc (attr_to_dict 1 kc prefix a)) o.
 
 Definition elem_case (kc : key_cfg) (e : eattr nat) (keys : list string) (o : res (eattr nat)) : bool :=
-  strs_eqb (keys_of (elem_to_dict None e)) keys
-  && res_agree (assoc_eqb attr_eqb) (elem_from_dict kc (elem_to_dict None e)) o.
+  strs_eqb (keys_of (elem_to_dict 1 kc None e)) keys
+  && res_agree (assoc_eqb attr_eqb) (elem_from_dict ntruthy kc (elem_to_dict 1 kc None e)) o.
 
 Definition attrs_case (kc : key_cfg) (c : list (string * attr nat)) (keys : list string)
            (o : res (list (string * attr nat))) : bool :=
-  strs_eqb (keys_of (attrs_to_dict c)) keys
-  && res_agree (assoc_eqb attr_eqb) (attrs_from_dict kc (attrs_to_dict c)) o.
+  strs_eqb (keys_of (attrs_to_dict 1 kc c)) keys
+  && res_agree (assoc_eqb attr_eqb) (attrs_from_dict ntruthy kc (attrs_to_dict 1 kc c)) o.
 
 Definition eattrs_case (kc : key_cfg) (c : list (string * eattr nat)) (keys : list string)
            (o : res (list (string * eattr nat))) : bool :=
-  strs_eqb (keys_of (eattrs_to_dict c)) keys
-  && res_agree (assoc_eqb (assoc_eqb attr_eqb)) (eattrs_from_dict kc (eattrs_to_dict c)) o.
+  strs_eqb (keys_of (eattrs_to_dict 1 kc c)) keys
+  && res_agree (assoc_eqb (assoc_eqb attr_eqb)) (eattrs_from_dict ntruthy kc (eattrs_to_dict 1 kc c)) o.
